@@ -31,6 +31,7 @@ Section Decode.
   Variable Ops : ops St.
   Variable max_array : Z.
   Variable max_bulk : Z.
+  Variable max_depth : N.     (* maxArrayDepth *)
 
   Definition decode_int (s : St) : res Z * St :=
     match o_rslice Ops s with
@@ -94,8 +95,8 @@ Section Decode.
       end
     end.
 
-  (* fuel bounds the nesting depth only *)
-  Fixpoint decode (fuel : nat) (s : St) : res resp * St :=
+  (* fuel bounds the nesting depth only; d is decoder.depth, the number of arrays currently open *)
+  Fixpoint decode (fuel : nat) (d : N) (s : St) : res resp * St :=
     match fuel with
     | 0%nat => (Fail OutOfFuel, s)
     | S f =>
@@ -119,7 +120,8 @@ Section Decode.
               if (n <? -1)%Z then (Fail BadArrayLen, s3)
               else if (n >? max_array)%Z then (Fail BadArrayLenTooLong, s3)
               else if (n =? -1)%Z then (Ok (Arr None), s3)
-              else match elems (decode f) (Z.to_nat n) s3 with
+              else if max_depth <=? d then (Fail BadArrayDepth, s3)
+              else match elems (decode f (d + 1)) (Z.to_nat n) s3 with
                    | (Ok vs, s4) => (Ok (Arr (Some vs)), s4)
                    | (Fail e, s4) => (Fail e, s4)
                    end
@@ -133,7 +135,7 @@ Section Decode.
     match msgs with
     | 0%nat => ([], OutOfFuel, s)
     | S m =>
-      match decode depth s with
+      match decode depth 0 s with
       | (Fail e, s1) => ([], e, s1)
       | (Ok v, s1) => let '(vs, e, s2) := decode_all m depth s1 in (v :: vs, e, s2)
       end
@@ -141,14 +143,16 @@ Section Decode.
 End Decode.
 
 (* entry points used by the correspondence runner *)
-Definition decode_all_chunked (max_array max_bulk : Z) (B : N) (szs : list N) (endv : rerr) (data : bytes)
+Definition depth_fuel (max_depth : N) : nat := Datatypes.S (Datatypes.S (N.to_nat max_depth)).
+
+Definition decode_all_chunked (max_array max_bulk : Z) (max_depth : N) (B : N) (szs : list N) (endv : rerr) (data : bytes)
   : list resp * rerr :=
   let F := Datatypes.S (N.to_nat (lenN data)) in
   let s0 := {| win := []; cerr := None; src := data; sizes := szs; send := endv |} in
-  let '(vs, e, _) := decode_all crd (chunked_ops B F) max_array max_bulk F F s0 in (vs, e).
+  let '(vs, e, _) := decode_all crd (chunked_ops B F) max_array max_bulk max_depth F (depth_fuel max_depth) s0 in (vs, e).
 
-Definition decode_all_flat (max_array max_bulk : Z) (B : N) (endv : rerr) (data : bytes)
+Definition decode_all_flat (max_array max_bulk : Z) (max_depth : N) (B : N) (endv : rerr) (data : bytes)
   : list resp * rerr :=
   let F := Datatypes.S (N.to_nat (lenN data)) in
   let s0 := {| stream := data; ferr := None; fend := endv |} in
-  let '(vs, e, _) := decode_all frd (flat_ops B) max_array max_bulk F F s0 in (vs, e).
+  let '(vs, e, _) := decode_all frd (flat_ops B) max_array max_bulk max_depth F (depth_fuel max_depth) s0 in (vs, e).
